@@ -24,7 +24,7 @@ Tables == [core |-> CoreOperators, agg |-> AggregationOperators, search |-> Sear
 
 \* contexts in which the walkers reach a table
 Contexts == [core      |-> {"filterTop", "filterField", "stage", "matchStage", "subPipe", "documents", "updatesU", "exprArr"},
-             agg       |-> {"stage", "subPipe", "facetPipe", "updatePipe"},
+             agg       |-> {"stage", "subPipe", "facetPipe", "updatePipe", "afterSearch"},
              search    |-> {"searchStage", "compoundMust", "embedded", "facetOperator", "vectorFilter"},
              searchAgg |-> {"stage", "facetPipe"},
              mapDefs   |-> {"facetDefs"}]
@@ -109,6 +109,10 @@ Wrap(c, inner) ==
     [] c = "facetPipe"     -> Arr(<< Obj(<< <<"$facet", Obj(<< <<UF2, Arr(<<inner>>)>>,
                                                                  <<"uf3", Arr(<< Obj(<< <<"$match", Obj(<< <<UF, L("plain")>> >>)>> >>) >>)>> >>)>> >>) >>)
     [] c = "searchStage"   -> Arr(<< Obj(<< <<"$search", inner>> >>) >>)
+    \* an ordinary stage that follows a leading $search stage (every stage picks its own operator table)
+    [] c = "afterSearch"   -> Arr(<< Obj(<< <<"$search", Obj(<< <<"index", Str("plain", "keep")>>,
+                                                               <<"text", Obj(<< <<"query", L("plain")>>, <<"path", Str("plain", "free")>> >>)>> >>)>> >>),
+                                     inner >>)
     [] c = "compoundMust"  -> Arr(<< Obj(<< <<"$search", Obj(<< <<"index", Str("plain", "keep")>>, <<"compound", Obj(<< <<"must", Arr(<<inner>>)>> >>)>> >>)>> >>) >>)
     [] c = "embedded"      -> Arr(<< Obj(<< <<"$search", Obj(<< <<"embeddedDocument", Obj(<< <<"path", Str("plain", "free")>>, <<"operator", inner>> >>)>> >>)>> >>) >>)
     [] c = "facetOperator" -> Arr(<< Obj(<< <<"$searchMeta", Obj(<< <<"facet", Obj(<< <<"operator", inner>> >>)>> >>)>> >>) >>)
